@@ -33,7 +33,7 @@ pub fn compression(sx: &Sx) -> Result<Compression, String> {
 }
 
 fn sink(sx: &Sx) -> Result<ScheduledWriter, String> {
-	// vec | (sched VECTORED ANS...) ; ANS ::= (a K) | i | z | h
+	// vec | (sched VECTORED ANS...) ; ANS ::= (a K) | i | z | h | (h KIND)   KIND: see io::error_kind
 	let (h, a) = sx.head()?;
 	match h {
 		"vec" => Ok(ScheduledWriter::new(vec![], true)),
@@ -46,7 +46,10 @@ fn sink(sx: &Sx) -> Result<ScheduledWriter, String> {
 					"a" => WAns::Accept(xa[0].int::<usize>()?),
 					"i" => WAns::Interrupted,
 					"z" => WAns::Zero,
-					"h" => WAns::Hard,
+					"h" => WAns::Hard(match xa.first() {
+						None => std::io::ErrorKind::Other,
+						Some(k) => crate::io::error_kind(k.atom()?).ok_or_else(|| format!("bad error kind {k:?}"))?,
+					}),
 					other => return Err(format!("bad answer {other}")),
 				});
 			}
